@@ -284,6 +284,8 @@ def run(ctx):
     ctx.stats = core.run_shards("harness.checks.c11", "shard", jobs)
     sizes = [1, 255, 256, 1000, 1001, 1025, "pub255", "pub256", "pub257"] if ctx.tier == "quick" else [1, 85, 255, 256, 257, 999, 1000, 1001, 1024, 1025, 2047, 2501, 4097, "pub255", "pub256", "pub257", "pub1000", "pub65537"]
     lj = [dict(name=c, sizes=sizes[i::4]) for c in CONFIGS for i in range(4)]
+    # more than 2^15 / 2^16 constraints in one run (a writer may split the constraint system over several messages)
+    lj += [dict(name=CONFIGS[0], sizes=[32769])] if ctx.tier == "quick" else [dict(name=c, sizes=[n_]) for c in CONFIGS for n_ in (32769, 40001, 65537)]
     ctx.stats.merge_json(core.run_shards("harness.checks.c11", "large_shard", lj).to_json())
     ctx.stats.merge_json(core.run_shards_optimised("harness.checks.c11", "large_shard", [dict(name=c, sizes=[1, 85]) for c in CONFIGS]).to_json())
     ctx.stats.extra["configs"] = CONFIGS
